@@ -83,7 +83,8 @@ class Tools:
             def snap_state(self, start=None):
                 sim = self.simulator
                 r = [int(v) for v in sim.registers]
-                return {'regs': r, 'start': r[24] if start is None else start, 'border': self.border, 'outfe': self.outfe,
+                border = self.border if isinstance(self.border, int) else self.border[-1][1] & 7     # --audio: list of (t, value)
+                return {'regs': r, 'start': r[24] if start is None else start, 'border': border, 'outfe': self.outfe,
                         'outfffd': self.outfffd, 'ay': list(self.ay), 'out7ffd': self.out7ffd,
                         'o7ffd': getattr(sim.memory, 'o7ffd', 0), 'is128': len(sim.memory) == 0x20000}
 
@@ -207,12 +208,12 @@ def restore_diff(fmt, machine, ended, started):
     return out
 
 
-def check_case(tools, cfg, image, regs, state, n_total, splits, by_options=False):
+def check_case(tools, cfg, image, regs, state, n_total, splits, by_options=False, extra=()):
     """Runs one case.  Returns [(n1, diffs, kind)] for the split points that are not transparent
     (kind 'final': the final snapshots differ; 'restore': the resumed run does not start in the state the
     first leg ended in), or [('error', [msg], None)]."""
     machine, fmt, cmio, py = cfg
-    o = opts(cmio, py)
+    o = opts(cmio, py) + list(extra)
     init = tools.path(f'init.{fmt}')
     tools.write_initial(init, image, regs, state)
     first = first_leg_options(regs, state) if by_options else []
@@ -245,11 +246,11 @@ def check_case(tools, cfg, image, regs, state, n_total, splits, by_options=False
     return bad
 
 
-def diagnose(tools, cfg, image, regs, state, n_total, n1, by_options=False):
+def diagnose(tools, cfg, image, regs, state, n_total, n1, by_options=False, extra=()):
     """Classify a failing split: does handing leg 2 the state the snapshot dropped (HALT flag, MEMPTR, the
     AY state of a 48K machine) on its command line make the difference disappear?"""
     machine, fmt, cmio, py = cfg
-    o = opts(cmio, py)
+    o = opts(cmio, py) + list(extra)
     init = tools.path(f'init.{fmt}')
     tools.write_initial(init, image, regs, state)
     first = first_leg_options(regs, state) if by_options else []
@@ -611,6 +612,133 @@ WITNESSES = {
 }
 
 
+# ---------------------------------------------------------------------------------------------
+# directed state sweep (deterministic, every run): every bit of every piece of state the property names is
+# set by the program itself between two split points, so that a field narrowed, dropped or mixed up on the
+# way register file -> get_state -> snapshot file -> reader -> from_snapshot -> register file shows as a
+# concrete failing split (the random generators reach e.g. AY registers 14/15 of a 48K machine, bit 7 of
+# the low byte of an alternate pair, or bits 6-7 of the last 0x7FFD value only now and then)
+
+def _d_regs(machine='48K'):
+    img = Image(machine)
+    code = [0x3E, 0xFF,              # LD A,0xFF
+            0x01, 0xFF, 0xFF,        # LD BC,0xFFFF
+            0x11, 0xFF, 0xFF,        # LD DE,0xFFFF
+            0x21, 0xFF, 0xFF,        # LD HL,0xFFFF
+            0xA7, 0x3D,              # AND A; DEC A          (F = 0xAA: S,5,3,N)
+            0x08, 0xD9,              # EX AF,AF'; EXX
+            0x3E, 0x80,              # LD A,0x80
+            0x01, 0x80, 0x81,        # LD BC,0x8180
+            0x11, 0x82, 0x7F,        # LD DE,0x7F82
+            0x21, 0xFE, 0x01,        # LD HL,0x01FE
+            0x37,                    # SCF
+            0xDD, 0x21, 0xFF, 0xFE,  # LD IX,0xFEFF
+            0xFD, 0x21, 0x80, 0x81,  # LD IY,0x8180
+            0x31, 0xFF, 0xFF,        # LD SP,0xFFFF
+            0xED, 0x47,              # LD I,A
+            0xED, 0x4F,              # LD R,A                (R bit 7 set)
+            0x08, 0xD9,              # EX AF,AF'; EXX
+            0x00, 0x00]
+    img.load(0x8000, code)
+    hw = {'iff': 0, 'im': 2, 'tstates': 100, 'border': 5, 'fe': 0x15}
+    if machine == '128K':
+        hw.update({'7ffd': 0, 'fffd': 0, 'ay': [0] * 16})
+    return img, plain_regs(0x8000), hw, 21, [7, 8, 13, 15, 16, 17, 18, 20]
+
+
+def _d_hw128():
+    img = Image('128K')
+    code = []
+    for port_hi, v in ((0x7F, 0xC7),             # 0x7FFD: bank 7, bits 6-7 set, not locked
+                       (0xFF, 0x0F), (0xBF, 0xFF),   # AY register 15 = 0xFF
+                       (0xFF, 0x0E), (0xBF, 0xEE),   # AY register 14 = 0xEE
+                       (0xFF, 0x00), (0xBF, 0x80),   # AY register 0 = 0x80
+                       (0xFF, 0xFF),                 # selected AY register 0xFF (no register)
+                       (0x7F, 0xF0)):            # 0x7FFD: ROM 1, bank 0, locked, bits 6-7 set
+        code += [0x01, 0xFD, port_hi, 0x3E, v, 0xED, 0x79]      # LD BC,port; LD A,v; OUT (C),A
+    code += [0x3E, 0xFF, 0xD3, 0xFE,             # LD A,0xFF; OUT (0xFE),A  (border 7, last OUT 0xFF)
+             0x01, 0xFD, 0x7F, 0x3E, 0x07, 0xED, 0x79,   # a write the lock must refuse
+             0xED, 0x5E, 0x00, 0x00]             # IM 2
+    img.load(0x8000, code)
+    hw = {'iff': 0, 'im': 0, 'tstates': 70000, 'border': 0, 'fe': 0, '7ffd': 0, 'fffd': 0, 'ay': [0] * 16}
+    n = 3 * 9 + 2 + 3 + 2
+    return img, plain_regs(0x8000), hw, n, [3, 6, 9, 12, 15, 18, 21, 24, 27, 29, 32, 33]
+
+
+def _d_ay48(only):
+    def build():
+        img = Image('48K')
+        if only == 'fffd':
+            # a register is selected, every AY register is still 0
+            code = [0x01, 0xFD, 0xFF, 0x3E, 0x0E, 0xED, 0x79, 0xED, 0x78, 0x00, 0x00]
+            n, splits = 6, [3, 4, 5]
+        else:
+            # registers 15 and 14 written, then register 0 selected again (fffd = 0)
+            code = []
+            for port_hi, v in ((0xFF, 0x0F), (0xBF, 0xFF), (0xFF, 0x0E), (0xBF, 0xEE), (0xFF, 0x00)):
+                code += [0x01, 0xFD, port_hi, 0x3E, v, 0xED, 0x79]
+            code += [0x3E, 0x0F, 0xED, 0x79, 0x06, 0xFF, 0xED, 0x78, 0x00, 0x00]   # select 15 again; IN A,(C)
+            n, splits = 20, [6, 12, 15, 17, 18, 19]
+        img.load(0x8000, code)
+        hw = {'iff': 0, 'im': 1, 'tstates': 100, 'border': 7, 'fe': 0}
+        return img, plain_regs(0x8000), hw, n, splits
+    return build
+
+
+def _d_border():
+    # border / last OUT to 0xFE changed several times; run with --audio, where the tracer keeps the border as a list
+    img = Image('48K')
+    code = []
+    for v in (0x01, 0x12, 0xFD, 0x06):
+        code += [0x3E, v, 0xD3, 0xFE]
+    code += [0x00, 0x00]
+    img.load(0x8000, code)
+    hw = {'iff': 0, 'im': 1, 'tstates': 69000, 'border': 3, 'fe': 3}
+    return img, plain_regs(0x8000), hw, 9, [1, 2, 4, 6, 8]
+
+
+def _d_halt_im(machine):
+    def build():
+        # IM 0 / IM 2, HALT waits with IFF off (never leaves) and on, saved inside the wait
+        img = Image(machine)
+        img.load(0x8000, [0xED, 0x46, 0xF3, 0x76])          # IM 0; DI; HALT (forever)
+        hw = {'iff': 1, 'im': 2, 'tstates': FRAME[machine] - 30, 'border': 2, 'fe': 2}
+        if machine == '128K':
+            hw.update({'7ffd': 0x10, 'fffd': 7, 'ay': list(range(0xF0, 0x100))})
+        return img, plain_regs(0x8000), hw, 12, [1, 2, 3, 4, 8, 11]
+    return build
+
+
+DIRECTED = {
+    'regs-all-bits': {'machine': '48K', 'cmio': False, 'formats': ('szx', 'z80'), 'build': _d_regs, 'pythons': (False, True)},
+    'regs-all-bits-cmio-128k': {'machine': '128K', 'cmio': True, 'formats': ('szx', 'z80'), 'build': lambda: _d_regs('128K'), 'pythons': (False,)},
+    'hw-128k-all-bits': {'machine': '128K', 'cmio': False, 'formats': ('szx', 'z80'), 'build': _d_hw128, 'pythons': (False, True)},
+    'ay-48k-regs-14-15': {'machine': '48K', 'cmio': False, 'formats': ('szx', 'z80'), 'build': _d_ay48('ay'), 'pythons': (False,)},
+    'ay-48k-fffd-only': {'machine': '48K', 'cmio': False, 'formats': ('szx', 'z80'), 'build': _d_ay48('fffd'), 'pythons': (True,)},
+    'border-list-audio': {'machine': '48K', 'cmio': False, 'formats': ('szx', 'z80'), 'build': _d_border, 'pythons': (False, True), 'extra': ('--audio',)},
+    'halt-di-im0-48k': {'machine': '48K', 'cmio': False, 'formats': ('szx', 'z80'), 'build': _d_halt_im('48K'), 'pythons': (False,)},
+    'halt-di-im0-128k': {'machine': '128K', 'cmio': True, 'formats': ('szx',), 'build': _d_halt_im('128K'), 'pythons': (True,)},
+}
+
+
+def tstate_sweep(machine):
+    """Start clocks on every boundary of the two snapshot encodings of the frame position (quarter frames of
+    the .z80 header, the 16/24-bit cuts of the SZX dword, frame end) and in the INT window; two NOPs, split
+    between them; the start state is handed to the first leg on the command line."""
+    fd = FRAME[machine]
+    q = fd // 4
+    ts = [0, 1, q - 1, q, 2 * q - 1, 2 * q, 3 * q - 1, 3 * q, 65532, 65536, fd - 5, fd - 4, fd - 1]
+    out = []
+    for t in ts:
+        img = Image(machine)
+        img.load(0x8000, [0x00, 0x00, 0x00])
+        hw = {'iff': 0, 'im': 1, 'tstates': t, 'border': 1, 'fe': 1}
+        if machine == '128K':
+            hw.update({'7ffd': 0, 'fffd': 0, 'ay': [0] * 16})
+        out.append((t, img, plain_regs(0x8000), hw, 2, [1]))
+    return out
+
+
 def long_run_case():
     """EI; HALT; JR -4 with an `EI; RET` interrupt routine (IM 2) for more than 2^24 T-states (4.2 million
     instructions, ~240 frames), then a little more than one frame after resuming: where the next interrupt
@@ -626,10 +754,10 @@ def long_run_case():
     return img, regs, hw, n1 + 19000, [n1]
 
 
-def replay_data(cfg, img, regs, hw, n, n1, by_options=False):
-    return {'kind': 'split', 'by_options': by_options, 'cfg': list(cfg), 'machine': img.machine, 'o7ffd': img.o7ffd, 'fill': img.fill,
+def replay_data(cfg, img, regs, hw, n, n1, by_options=False, extra=()):
+    return {'kind': 'split', 'by_options': by_options, 'extra': list(extra), 'cfg': list(cfg), 'machine': img.machine, 'o7ffd': img.o7ffd, 'fill': img.fill,
             'cells': [[b, a, v] for (b, a), v in sorted(img.cells.items())], 'regs': regs, 'hw': hw, 'n': n, 'n1': n1,
-            'cmd': (f'trace.py {" ".join(opts(cfg[2], cfg[3]))} -m {n} init.{cfg[1]} full.{cfg[1]}  vs  -m {n1} init.{cfg[1]} mid.{cfg[1]} ; '
+            'cmd': (f'trace.py {" ".join(opts(cfg[2], cfg[3]) + list(extra))} -m {n} init.{cfg[1]} full.{cfg[1]}  vs  -m {n1} init.{cfg[1]} mid.{cfg[1]} ; '
                     f'-m {n - n1} mid.{cfg[1]} end.{cfg[1]}')}
 
 
